@@ -59,6 +59,14 @@ theorem udfRun_prefix (st : Option Nat) (rs rs' : List Resp) :
       | none => exact stop [] .err
       | some n => exact cons (.b n) none
 
+theorem udfWrite_total (ks : List FKind) :
+    (udfWrite true ks).2 = .clean ∧ (udfWrite true ks).1.length = ks.length := by
+  induction ks with
+  | nil => simp [udfWrite]
+  | cons k ks ih =>
+    simp only [udfWrite, if_true]
+    split <;> simp [ih.1, ih.2]
+
 /-- `binary.ReadUvarint` consumes at least one byte when it yields a value. -/
 theorem uvar_consumes (bs : Bytes) : ∀ (i x s v : Nat) (rest : Bytes), uvar i x s bs = .val v rest → rest.length < bs.length := by
   induction bs with
